@@ -280,3 +280,39 @@ def hex_pitch_change_rescales_coordinates_only(ctx, cornersUp):
     ctx.check_close("new pitch reads back", g.pitch, q, scale=q)
     ctx.check("orientation, symmetry, offset and locations untouched", g.cornersUp == cornersUp
               and str(g.symmetry) == "third periodic" and len(g) == nloc and not g._offset.any())
+
+
+@harness("C07", bounds="block (axial index k in an axial grid with symbolic bounds) inside an object located at cell "
+                       "(ti, rj) of a theta-R-Z grid with symbolic radial and azimuthal bounds; native coordinates",
+         stubs=STUBS)
+def nested_native_coordinates_under_theta_rz(ctx):
+    from armi.reactor import composites
+
+    th = [0.0, ctx.real("th1", 0.1, 1.0), ctx.real("th2", 1.1, 2.0)]
+    rs = [0.0, ctx.real("r1", 1.0, 50.0), ctx.real("r2", 51.0, 100.0)]
+    zs = [0.0, ctx.real("z1", 1.0, 50.0), ctx.real("z2", 51.0, 100.0)]
+    top = composites.Composite("top")
+    trz = ThetaRZGrid(bounds=(th, rs, [0.0, 1000.0]))
+    trz.armiObject = top
+    top.spatialGrid = trz
+    mid = composites.Composite("mid")
+    top.add(mid)
+    ti, rj = int(ctx.int("ti", 0, 1)), int(ctx.int("rj", 0, 1))
+    mid.spatialLocator = trz[ti, rj, 0]
+    ax = AxialGrid(bounds=(None, None, zs))
+    ax.armiObject = mid
+    mid.spatialGrid = ax
+    leaf = composites.Composite("leaf")
+    mid.add(leaf)
+    k = int(ctx.int("k", 0, 1))
+    leaf.spatialLocator = ax[0, 0, k]
+    g = leaf.spatialLocator.getGlobalCoordinates(nativeCoords=True)
+    wantTh, wantR = (th[ti] + th[ti + 1]) / 2, (rs[rj] + rs[rj + 1]) / 2
+    wantZ = 500.0 + (zs[k] + zs[k + 1]) / 2
+    if ctx.canary:
+        wantR = wantR + ITE(rs[1] > 49, 1.0, 0.0)
+    ctx.check_close("native global theta = parent's cell-centre angle", g[0], wantTh, scale=2.0)
+    ctx.check_close("native global r = parent's cell-centre radius", g[1], wantR, scale=100.0)
+    ctx.check_close("native global z = parent's z + local z", g[2], wantZ, scale=1000.0)
+    ci = leaf.spatialLocator.getCompleteIndices()
+    ctx.check("axial-in-radial nesting adds indices", ci[0] == ti and ci[1] == rj and ci[2] == k)
